@@ -210,7 +210,20 @@ pub fn families(cp: &CrashPoint, torn: usize, rng: &mut Rng) -> Vec<Choice> {
         sel: all(true),
     });
     if n > 1 {
-        for i in 0..n {
+        // with many volatile requests: the newest ones and a sample
+        let idxs: Vec<usize> = if n <= 16 {
+            (0..n).collect()
+        } else {
+            let mut v: Vec<usize> = (n - 8..n).collect();
+            while v.len() < 16 {
+                let i = rng.below(n as u64 - 8) as usize;
+                if !v.contains(&i) {
+                    v.push(i);
+                }
+            }
+            v
+        };
+        for i in idxs {
             let mut s = all(false);
             s[i] = vec![true; cp.vols[i].nblocks];
             out.push(Choice {
